@@ -62,6 +62,8 @@ pub trait SlotT: Any {
     fn as_any(&self) -> &dyn Any;
     fn fresh(&self) -> Box<dyn SlotT>;
     fn push(&mut self, form: usize, v: &Value) -> Value;
+    /// push and report how often the allocator was called inside the region's push itself
+    fn push_measured(&mut self, form: usize, v: &Value) -> (Value, u64);
     fn n(&self) -> usize;
     fn idx(&self, id: usize) -> Value;
     fn read(&self, id: usize) -> Value;
@@ -114,6 +116,16 @@ where
         let idx = f(&mut self.region, &owned);
         self.ids.push(idx);
         idx.idx_json()
+    }
+    fn push_measured(&mut self, form: usize, v: &Value) -> (Value, u64) {
+        let owned = R::Owned::from_json(v);
+        let f = self.caps.forms[form].1;
+        self.ids.reserve(1);
+        let before = crate::alloc::allocs();
+        let idx = f(&mut self.region, &owned);
+        let n = crate::alloc::allocs() - before;
+        self.ids.push(idx);
+        (idx.idx_json(), n)
     }
     fn n(&self) -> usize {
         self.ids.len()
